@@ -320,7 +320,7 @@ func ruleShrinkReserve(c *Ctx, id string) {
 				var kres int64 = -1
 				for _, pr := range [][2]ssa.Value{{add.X, add.Y}, {add.Y, add.X}} {
 					cl, isC := sc.S.resolve(stripConv(pr[0])).(*ssa.Call)
-					if !isC || cl.Call.StaticCallee() == nil || cl.Call.StaticCallee().Name() != "NDirty" {
+					if !isC || staticCallee(cl) == nil || staticCallee(cl).Name() != "NDirty" {
 						continue
 					}
 					if k, isk := constInt(sc.S.resolve(pr[1])); isk {
@@ -381,7 +381,7 @@ func ruleShortWrite(c *Ctx, id string) {
 						used = true
 					case *ssa.Call:
 						if _, isB := x.Call.Value.(*ssa.Builtin); !isB {
-							if cal := x.Call.StaticCallee(); cal == nil || !strings.HasSuffix(cal.Name(), "DPrintf") {
+							if cal := staticCallee(x); cal == nil || !strings.HasSuffix(cal.Name(), "DPrintf") {
 								used = true
 							}
 						}
